@@ -100,6 +100,9 @@ type Invocation struct {
 	Access []AccessTuple  `json:"access,omitempty"`
 	// JP: join points enabled for this invocation (Artela only).
 	JP bool `json:"jp"`
+	// Reset: the host re-targets the EVM with EVM.Reset (same transaction context and
+	// state) before this invocation, after it has set the join-point switch
+	Reset bool `json:"reset,omitempty"`
 }
 
 // AspectBinding binds an aspect double to (contract, point cut).
